@@ -582,3 +582,24 @@ func TestC07_Replay(t *testing.T) {
 
 var _ = runtime.Gosched
 var _ = ircsim.ErrDial
+
+// TestC07_RateLimitedReconnect: flood control on and the same client connected twice, so that the
+// second connection's first burst is the one the limiter holds back (the generated scenarios keep
+// rate-limited cases to one connection because each costs seconds).
+func TestC07_RateLimitedReconnect(t *testing.T) {
+	col := evid.New("C07", "two fixed-shape scenarios with flood control on and two connections of the same client (cause Close / server EOF), the second connection's output being rate limited")
+	defer finish(t, col)
+	for i, sc := range []*c07Scenario{
+		{RateLimit: true, Cycles: 2, Welcome: "same", InBacklog: 5, InSegments: 1, HandlerEmits: 1, ServerReads: "fast", FireAfter: 5, Cause: "close", ReconnectFrom: "goroutine", UserLines: 10},
+		{RateLimit: true, Cycles: 2, Welcome: "same", InBacklog: 6, InSegments: 1, HandlerEmits: 1, ServerReads: "fast", FireAfter: 6, Cause: "eof", ReconnectFrom: "handler", UserLines: 10},
+	} {
+		b, _ := json.Marshal(sc)
+		col.Case(string(b), true, "rate_limited_reconnect")
+		col.Sample(sc)
+		journal(sc)
+		if v := runC07(sc); v != nil {
+			writeReplay("TestC07", v, sc)
+			t.Fatalf("VIOLATION C07 (rate-limited reconnect %d): %s", i, v.Msg)
+		}
+	}
+}
